@@ -51,14 +51,22 @@ def run(m):
                 return m, "NOBUILD", b.stderr[-400:]
         if m["property"] == "ALL":
             # behaviour-preserving variant: every check must stay silent (exit 0)
-            bad = []
+            bad, soft = [], []
             for i in range(1, 21):
                 pid = "C%02d" % i
                 o = subprocess.run([TCHK, "-property", pid, "-tier", "quick", "-no-evidence"], env=env, capture_output=True, text=True)
                 if o.returncode != 0 or "VIOLATION" in o.stdout:
                     lines = [l for l in (o.stdout + o.stderr).splitlines() if l.startswith("ERROR") or (": rule " in l and not l.startswith("KNOWN"))]
-                    bad.append("%s exit=%d\n      %s" % (pid, o.returncode, "\n      ".join(lines[:6])))
-            return m, "OK" if not bad else "FALSE-ALARM", "\n".join(bad)
+                    msg = "%s exit=%d\n      %s" % (pid, o.returncode, "\n      ".join(lines[:6]))
+                    if o.returncode == 2 and "VIOLATION" not in o.stdout and m.get("undecided_ok"):
+                        soft.append(msg)  # renamed anchor: 'cannot decide', no alarm
+                    elif o.returncode == 1 and m.get("allow") and all(any(("rule " + a) in l for a in m["allow"]) for l in lines if ": rule " in l):
+                        soft.append(msg)  # a listed known finding moved with the code
+                    else:
+                        bad.append(msg)
+            if bad:
+                return m, "FALSE-ALARM", "\n".join(bad)
+            return m, "OK", ""
         out = subprocess.run([TCHK, "-property", m["property"], "-tier", "quick", "-no-evidence"], env=env, capture_output=True, text=True)
         text = out.stdout + out.stderr
         want = m.get("rule", "")
